@@ -817,7 +817,7 @@ func init() {
 						// a parser without AST records no tokens
 					case o.OK:
 						what = checkTokenShape(o.Tokens, n, pt.Case.G.Rules[pt.Entry].Name)
-						if what == "" && v.Name == "v0" && pt.Ref.OK && !pt.Ref.Budget && !sameToks(o.Tokens, refpeg.Tokens(pt.Ref.Root)) {
+						if what == "" && !v.NoAST && pt.Ref.OK && !pt.Ref.Budget && !pt.Ref.Unspecified && !sameToks(o.Tokens, refpeg.Tokens(pt.Ref.Root)) {
 							what = fmt.Sprintf("tokens [%s] do not slice the rune sequence the way the derivation does [%s]", toksOf(o.Tokens), refToksOf(refpeg.Tokens(pt.Ref.Root)))
 						}
 						for _, t := range o.Trace {
